@@ -16,6 +16,15 @@ from common import driver
 from props import c17_expr as X
 
 PROP = "C17"
+# The deployed model is `toSym true`: since /repo commit ab94ce4 the FortranWriter (inherited by the SymPyWriter)
+# brackets a left operand of `**` that is itself a `**`.  `toSym false` only survives in the kernel-checked
+# counterexample theorems about the pinned writer.
+MODEL_BRK = True
+RETIRED = {"C17-left-nested-power"}     # fixed by ab94ce4: never accepted as a known-finding class again
+
+
+def known():
+    return [f for f in common.known_findings(PROP) if f["id"] not in RETIRED]
 
 
 # ---------------------------------------------------------------------------------------------
@@ -136,6 +145,35 @@ def sym_eval(s, env, interp=X.INTERP[0]):
     raise X.Undefined()
 
 
+def translation_ok(b, trees):
+    """Is what the live SymPyWriter hands to SymPy the faithful rational reading of each tree?  (pointwise on
+    [-3,3]^vars; used to decide whether a failing input can be blamed on a known finding: a known finding is a wrong
+    verdict on a CORRECTLY translated expression)"""
+    import itertools
+    for e in trees:
+        try:
+            s = real_sympy(b, [e])[0]
+        except Exception:
+            continue
+        if isinstance(s, tuple):
+            continue
+        vs = X.variables(e)
+        has_arr = bool({"arr1", "arr2"} & X.ops(e))
+        for interp in (X.INTERP if has_arr else X.INTERP[:1]):
+            for vals in itertools.product(range(-3, 4), repeat=len(vs)):
+                env = [0] * len(X.VARS)
+                for v, z in zip(vs, vals):
+                    env[v] = z
+                try:
+                    want = X.evalQ_py(e, env, interp)
+                    got = sym_eval(s, env, interp)
+                except (X.Undefined, ZeroDivisionError, OverflowError):
+                    continue
+                if want != got:
+                    return False
+    return True
+
+
 def poly_to_sympy(p):
     import sympy
     out = sympy.Integer(0)
@@ -207,8 +245,8 @@ def check_solutions(e1, e2, sols, x=0):
 
 
 class Ctx:
-    def __init__(self, chk, brk):
-        self.chk, self.brk = chk, brk
+    def __init__(self, chk, brk, b=None, live_brk=True):
+        self.chk, self.brk, self.b, self.live_brk = chk, brk, b, live_brk
         self.known_hits = {}
         self.dist = {}
         self.stop = False
@@ -219,13 +257,17 @@ class Ctx:
     def failing(self, payload, trees, model_reproduces):
         """a concrete failing input of the property on the real code: known-finding class or VIOLATION"""
         cls = X.classes(*trees)
-        known_ids = {f["id"] for f in common.known_findings(PROP)}
+        known_ids = {f["id"] for f in known()}
+        if model_reproduces and (cls & known_ids) and self.b is not None:
+            # a known finding is a wrong verdict on a faithfully translated expression
+            model_reproduces = translation_ok(self.b, trees)
         if (cls & known_ids) and model_reproduces:
             for c in cls & known_ids:
                 self.known_hits[c] = self.known_hits.get(c, 0) + 1
             return
         payload = dict(payload, classes=sorted(cls), model_reproduces=model_reproduces,
-                       brackets_left_nested_power=self.brk)
+                       contains_left_nested_power=any(X.left_nested_pow(t) for t in trees),
+                       live_writer_brackets_left_nested_power=self.live_brk)
         self.chk.violation(payload)
         self.stop = True
 
@@ -450,7 +492,8 @@ def run(chk):
         "pairs of integer expressions (<= 12 nodes each, degree <= 6 after translation) over i,j,n, arrays a,c (rank 1), "
         "b (rank 2): second member is a value-preserving rewriting of the first, optionally shifted by a constant / a "
         "variable, or independent; polynomial stream (+,-,*,unary minus,** literal) and extended stream (also /, MOD, MIN, "
-        "MAX, array accesses, symbolic exponent); MIN/MAX-sensitive pairs; expressions to expand; equations to solve for i "
+        "MAX, array accesses, symbolic exponent); MIN/MAX-sensitive pairs; pairs around left-nested powers (x**k)**m with literal "
+        "and symbolic exponents (right reading x**(k*m), wrong reading x**(k**m), shifted); expressions to expand; equations to solve for i "
         "(mostly linear); translation points (expression, valuation). Non-trivial = at least 5 nodes in the pair (3 for a "
         "single expression); distinct by canonical JSON.")
     chk.assumptions += [
@@ -467,9 +510,14 @@ def run(chk):
     chk.lean()
     t0 = time.time()
     b = X.Builder()
-    brk = live_brackets(b)
-    ctx = Ctx(chk, brk)
-    chk.cov["live_writer_brackets_left_nested_power"] = brk
+    live_brk = live_brackets(b)
+    ctx = Ctx(chk, MODEL_BRK, b, live_brk)
+    chk.cov["live_writer_brackets_left_nested_power"] = live_brk
+    chk.cov["model_toSym_brk"] = MODEL_BRK
+    if not live_brk:
+        chk.correspondence_broken("the live SymPyWriter/FortranWriter does not bracket a left-nested '**': (n**2)**3 "
+                                  "reaches SymPy as n**(2**3); the deployed model is toSym true",
+                                  {"e": "(n**2)**3"}, "n**6", "n**8")
     rng = chk.rng
     scale = 150 if chk.tier == "thorough" else 6
     # corpus of past/known failures first
@@ -478,6 +526,13 @@ def run(chk):
               (("mod", ("var", 2), ("lit", 2)), ("mod", ("add", ("var", 2), ("lit", 2)), ("lit", 2)), "corpus"),
               (("pow", ("pow", ("var", 2), 2), 3), ("pow", ("var", 2), 8), "corpus"),
               (("pow", ("pow", ("var", 2), 2), 3), ("pow", ("var", 2), 6), "corpus"),
+              (("add", ("pow", ("pow", ("var", 0), 2), 3), ("lit", 1)), ("pow", ("var", 0), 6), "corpus"),
+              (("add", ("pow", ("pow", ("var", 0), 2), 3), ("lit", 1)), ("pow", ("var", 0), 8), "corpus"),
+              (("pow", ("pow", ("pow", ("var", 0), 2), 1), 3), ("pow", ("var", 0), 2), "corpus"),
+              (("add", ("powe", ("powe", ("lit", 2), ("var", 1)), ("var", 2)), ("lit", 1)),
+               ("powe", ("lit", 2), ("powe", ("var", 1), ("var", 2))), "corpus"),
+              (("powe", ("powe", ("var", 0), ("var", 1)), ("var", 2)), ("powe", ("var", 0), ("powe", ("var", 1), ("var", 2))), "corpus"),
+              (("pow", ("powe", ("lit", 2), ("var", 1)), 2), ("powe", ("lit", 2), ("pow", ("var", 1), 2)), "corpus"),
               (("sub", ("var", 0), ("neg", ("neg", ("var", 1)))), ("sub", ("var", 0), ("var", 1)), "corpus"),
               (("max", ("var", 0), ("add", ("var", 0), ("lit", 1))), ("add", ("var", 0), ("lit", 1)), "corpus"),
               (("min", ("var", 0), ("add", ("var", 0), ("lit", 1))), ("var", 0), "corpus"),
@@ -486,6 +541,7 @@ def run(chk):
     pairs = corpus + [X.gen_pair(rng, ext=False) for _ in range(110 * scale)]
     pairs += [X.gen_pair(rng, ext=True) for _ in range(130 * scale)]
     pairs += [X.gen_minmax_pair(rng) for _ in range(30 * scale)]
+    pairs += [X.gen_nested_pow_pair(rng) for _ in range(8 * scale)]
     run_pairs(ctx, b, pairs)
     if not ctx.stop:
         triples = []
@@ -505,7 +561,9 @@ def run(chk):
             chk.correspondence_broken("equal() on None arguments", {"none_none": nn, "none_i": nx}, [True, False], [nn, nx])
     chk.cov["seconds_pairs"] = round(time.time() - t0, 1)
     if not ctx.stop:
-        exprs = [("mul", ("div", ("add", ("var", 2), ("lit", 1)), ("lit", 2)), ("lit", 2)), ("pow", ("pow", ("var", 2), 2), 3)]
+        exprs = [("mul", ("div", ("add", ("var", 2), ("lit", 1)), ("lit", 2)), ("lit", 2)), ("pow", ("pow", ("var", 2), 2), 3),
+                 ("mul", ("pow", ("powe", ("var", 0), ("var", 1)), 2), ("add", ("var", 2), ("lit", 1)))]
+        exprs += [X.gen_nested_pow_expr(rng) for _ in range(4 * scale)]
         for _ in range(60 * scale):
             for _ in range(100):
                 e = (X.gen_poly if rng.random() < 0.5 else X.gen_ext)(rng, rng.randint(2, 10))
@@ -521,14 +579,14 @@ def run(chk):
         run_solves(ctx, b, eqs)
     chk.cov["seconds_pairs_expands_solves"] = round(time.time() - t0, 1)
     if not ctx.stop:
-        exprs = []
+        exprs = [X.gen_nested_pow_expr(rng) for _ in range(4 * scale)]
         for _ in range(60 * scale):
             e = (X.gen_poly if rng.random() < 0.4 else X.gen_ext)(rng, rng.randint(2, 10))
             if max(X.degree(e, False), X.degree(e, True)) <= 8:
                 exprs.append(e)
         run_evals(ctx, b, exprs)
     # known findings: replay the witnesses against the real code
-    for f in common.known_findings(PROP):
+    for f in known():
         try:
             still = replay_finding(b, f)
         except Exception as err:
